@@ -164,6 +164,7 @@ PRINT FORMAT
 
 
 from argparse import ArgumentParser, RawDescriptionHelpFormatter
+import re
 import sys
 
 from . import __version__
@@ -281,8 +282,10 @@ def parse_args(sys_args=None):
 
     if sys_args is None:
         sys_args = sys.argv[1:]
+    # Stop argparse taking negative durations (-P...) and date-times with a
+    # negative expanded year (-XCCYY...) for options.
     sys_args = [
-        rf'\{arg}' if arg.startswith('-P') else arg
+        rf'\{arg}' if re.match(r'-(P|\d\d)', arg) else arg
         for arg in sys_args
     ]
     if hasattr(arg_parser, 'parse_intermixed_args'):
@@ -295,6 +298,9 @@ def parse_args(sys_args=None):
 
     if args.offsets2:
         args.offsets2 = [item.replace("\\", "") for item in args.offsets2]
+
+    args.items = [
+        item[1:] if item.startswith("\\-") else item for item in args.items]
 
     return args
 
